@@ -17,12 +17,23 @@ theorem resolve_user {G : GCtx} (ok : G.OK) {pi : PInfo} {sp dep : Nat} {hi : Na
   unfold X.resolveCallee
   rw [hl, hp, hpp]
 
+/-- The name of a procedure is not the name of a constant: a call of it is a user call. -/
+theorem GCtx.OK.sysOf_pname {G : GCtx} (ok : G.OK) (g : String) (hg : g ∈ G.pnames) : sysOf G.rho g = -1 := by
+  unfold sysOf
+  cases h : G.rho g with
+  | none => rfl
+  | some w =>
+    obtain ⟨p, hp⟩ := ok.pnames_mem g hg
+    have := (ok.rho_ok g w).mpr h
+    rw [hp] at this
+    simp at this
+
 theorem optExpr_call (sys : Int) (f : String) (args : List AExpr) :
     optExpr (.call sys f args) = .call sys f (optArgs args) := by
   conv => lhs; unfold optExpr
 
 theorem annot_call (ρ : String → Option Word) (g : String) (args : List X.Expr) :
-    optExpr (annotate ρ (.call g args)) = .call (-1) g (optArgsOf ρ args) := by
+    optExpr (annotate ρ (.call g args)) = .call (sysOf ρ g) g (optArgsOf ρ args) := by
   simp only [annotate, optExpr_call, annotateL_map, optArgs_map]
 
 theorem eval_call_user (f : Nat) (xc : X.Ctx) (g : String) (args : List X.Expr) (σ st : X.St) (p : X.Proc)
@@ -49,8 +60,8 @@ theorem eval_call_proc (f : Nat) (xc : X.Ctx) (g : String) (args : List X.Expr) 
   · exact ⟨toString "value of procedure " ++ toString g ++ toString " used as an operand", by simp [ho]⟩
   · exact ⟨"evaluation order of actuals matters (impure call)", by simp [ho]⟩
 
-/-- **A function call as a whole expression.** -/
-theorem exec_callExpr {G : GCtx} (ok : G.OK) (fuel : Nat) (hcs : ∀ k, k < fuel → CallSpec G k)
+/-- **A function call as a whole expression**, with the frame condition (for its use as an operand). -/
+theorem exec_callExprF {G : GCtx} (ok : G.OK) (fuel : Nat) (hcs : ∀ k, k < fuel → CallSpec G k)
     {pi : PInfo} (hpi : pi ∈ G.procs) (sp dep : Nat) (hi : Nat → Word) (hlo : G.lo ≤ sp) (hspv : sp + G.S pi + pi.po + pi.p.formals.length ≤ G.spv + 1)
     (hstack : G.spv ≤ sp + dep * G.smax) (g : String) (args : List X.Expr) (hg : g ∈ G.pnames)
     (hA : ∀ f, f < fuel → ArgsOK G pi sp dep hi f args) (σ : X.St)
@@ -60,7 +71,7 @@ theorem exec_callExpr {G : GCtx} (ok : G.OK) (fuel : Nat) (hcs : ∀ k, k < fuel
     (hsz : gs'.size ≤ G.S pi) (hnl : pi.p.locals.length ≤ gs.offset) (hci : ConstsIn (KOf G pi sp dep hi) gs') :
     match X.eval fuel G.xc (.call g args) σ with
     | .ok (.int w) σ' => ∃ b' mem', Steps G.env (cfg i a b mem) σ.io (cfg (i + (lowerCode G.cg code).length) w b' mem') σ'.io ∧
-        Rep (KOf G pi sp dep hi) σ' mem'
+        Rep (KOf G pi sp dep hi) σ' mem' ∧ FrmC (KOf G pi sp dep hi) gs.offset (G.S pi) mem mem'
     | .ok (.arr _) _ => True
     | .exit cd σ' => ∃ c, Steps G.env (cfg i a b mem) σ.io c σ'.io ∧ Exit G.env c σ'.io cd
     | .undef _ => True := by
@@ -86,7 +97,7 @@ theorem exec_callExpr {G : GCtx} (ok : G.OK) (fuel : Nat) (hcs : ∀ k, k < fuel
           obtain ⟨kind, hk, hseq⟩ := genExpr_call_inv _ _ _ _ _ _ _ _ hgen
           obtain ⟨_, hk'⟩ := exprCallKind_inv _ _ _ _ _ _ hk
           rcases hk' with ⟨hne, _⟩ | ⟨_, sym, hsym, hkind⟩
-          · exact absurd rfl hne
+          · exact absurd (ok.sysOf_pname g hg) hne
           obtain ⟨sym', hsym', hty⟩ := ok.callee_sym pi hpi pj hpj
           rw [hname] at hsym'
           have : sym = sym' := by
@@ -129,11 +140,36 @@ theorem exec_callExpr {G : GCtx} (ok : G.OK) (fuel : Nat) (hcs : ∀ k, k < fuel
               | some w =>
                 simp only
                 rw [hcu] at hcall
-                obtain ⟨a', b', mem', hst, rep', hres'⟩ := hcall
+                obtain ⟨a', b', mem', hst, rep', hres', frm'⟩ := hcall
                 have := hres' hf w rfl
                 subst this
                 rw [hs.2.2.2.1] at hst
-                exact ⟨b', mem', hst, rep'⟩
+                exact ⟨b', mem', hst, rep', frm'⟩
+
+/-- **A function call as a whole expression.** -/
+theorem exec_callExpr {G : GCtx} (ok : G.OK) (fuel : Nat) (hcs : ∀ k, k < fuel → CallSpec G k)
+    {pi : PInfo} (hpi : pi ∈ G.procs) (sp dep : Nat) (hi : Nat → Word) (hlo : G.lo ≤ sp) (hspv : sp + G.S pi + pi.po + pi.p.formals.length ≤ G.spv + 1)
+    (hstack : G.spv ≤ sp + dep * G.smax) (g : String) (args : List X.Expr) (hg : g ∈ G.pnames)
+    (hA : ∀ f, f < fuel → ArgsOK G pi sp dep hi f args) (σ : X.St)
+    (gs : GS) (code : Code) (gs' : GS) (i : Nat) (a b : Word) (mem : Mem)
+    (hgen : genExpr (G.ctxOf pi) (optExpr (annotate G.rho (.call g args))) .A gs = .ok (code, gs'))
+    (hat : At G.env.ds i (lowerCode G.cg code)) (hr : Rep (KOf G pi sp dep hi) σ mem)
+    (hsz : gs'.size ≤ G.S pi) (hnl : pi.p.locals.length ≤ gs.offset) (hci : ConstsIn (KOf G pi sp dep hi) gs') :
+    match X.eval fuel G.xc (.call g args) σ with
+    | .ok (.int w) σ' => ∃ b' mem', Steps G.env (cfg i a b mem) σ.io (cfg (i + (lowerCode G.cg code).length) w b' mem') σ'.io ∧
+        Rep (KOf G pi sp dep hi) σ' mem'
+    | .ok (.arr _) _ => True
+    | .exit cd σ' => ∃ c, Steps G.env (cfg i a b mem) σ.io c σ'.io ∧ Exit G.env c σ'.io cd
+    | .undef _ => True := by
+  have h := exec_callExprF ok fuel hcs hpi sp dep hi hlo hspv hstack g args hg hA σ gs code gs' i a b mem hgen hat hr hsz hnl hci
+  cases hev : X.eval fuel G.xc (.call g args) σ with
+  | undef w => trivial
+  | exit cd s => rw [hev] at h; exact h
+  | ok v s =>
+    rw [hev] at h
+    cases v with
+    | arr r => trivial
+    | int w => obtain ⟨b', mem', h1, h2, _⟩ := h; exact ⟨b', mem', h1, h2⟩
 
 /-! ### Statements over an effectful right-hand side -/
 
@@ -213,7 +249,7 @@ theorem callLeaf_of_spec {G : GCtx} (ok : G.OK) (pk : PureOk G.xc) {pi : PInfo} 
               obtain ⟨kind, hk, hseq⟩ := genExpr_call_inv _ _ _ _ _ _ _ _ hgen
               obtain ⟨_, hk'⟩ := exprCallKind_inv _ _ _ _ _ _ hk
               rcases hk' with ⟨hne, _⟩ | ⟨_, sym, hsym, hkind⟩
-              · exact absurd rfl hne
+              · exact absurd (ok.sysOf_pname g hgm) hne
               obtain ⟨sym', hsym', hty⟩ := ok.callee_sym pi hpi pj hpj
               rw [hname] at hsym'
               have : sym = sym' := by
@@ -253,14 +289,16 @@ theorem condOK_pp (c : X.Expr) (hpp : ppE G.pnames G.xc.impure c = true) : CondO
   have hleaf : ∀ k, k ≤ F → CallLeaf (KOf G pi sp dep hi) G.pnames k :=
     fun k hk => callLeaf_of_spec ok pk hpi sp dep hi hlo hspv hstack k (fun j hj => hcs j (by omega))
   refine ⟨?_, ?_, ?_, ?_⟩
-  · intro st mem cd s hr
-    exact eval_pp_noexit G.xc G.pnames hps pk F c st cd s hpp (noLoc_of_rep hr)
-  · intro st mem v s hr hev
-    exact ((eval_pp_sim G.xc G.pnames hps pk F c st v s hpp (noLoc_of_rep hr) hev).2.2.2.1).symm
-  · intro st mem v s hr hev m hm
-    exact hm.sim (eval_pp_sim G.xc G.pnames hps pk F c st v s hpp (noLoc_of_rep hr) hev)
   · intro st mem w s hr hev
-    exact expr_pp_correct (KOf G pi sp dep hi) wf.toWF G.pnames pk hps F hleaf c st w s hpp (noLoc_of_rep hr) hev
+    exact (expr_pp_correct (KOf G pi sp dep hi) wf.toWF G.pnames pk hps F hleaf c st w s hpp (noLoc_of_rep hr) hev :
+      ExecAt false _ _ w st).sim_right (eval_pp_sim G.xc G.pnames hps pk F c st _ s hpp (noLoc_of_rep hr) hev)
+  · intro st mem cd s hr hev
+    exact absurd hev (eval_pp_noexit G.xc G.pnames hps pk F c st cd s hpp (noLoc_of_rep hr))
+  · intro _ st mem v s hr hev
+    have hsim := eval_pp_sim G.xc G.pnames hps pk F c st v s hpp (noLoc_of_rep hr) hev
+    exact ⟨hsim.2.2.2.1.symm, fun m hm => hm.sim hsim⟩
+  · intro _ st mem cd s hr
+    exact eval_pp_noexit G.xc G.pnames hps pk F c st cd s hpp (noLoc_of_rep hr)
 
 /-- A right-hand side with calls of pure functions. -/
 theorem execE_pp (e : X.Expr) (hpp : ppE G.pnames G.xc.impure e = true) (st : X.St) :
@@ -270,26 +308,17 @@ theorem execE_pp (e : X.Expr) (hpp : ppE G.pnames G.xc.impure e = true) (st : X.
   unfold OutE
   cases hev : X.eval F G.xc e st with
   | undef w => trivial
-  | exit cd s => exact absurd hev (hC.noexit st mem cd s hr)
+  | exit cd s =>
+    obtain ⟨c', st', he⟩ := hC.exit st mem cd s hr hev gs code gs' i a b mem hgen hat hr hsz hnl hci
+    exact ⟨c', st', he⟩
   | ok v s =>
     cases v with
     | arr r => trivial
     | int w =>
       obtain ⟨b', mem', st1, rep1, _⟩ := hC.exec st mem w s hr hev gs code gs' i a b mem hgen hat hr hsz hnl hci
-      refine ⟨b', mem', ?_, hC.rep st mem _ s hr hev _ rep1⟩
-      rw [hC.io st mem _ s hr hev]
-      exact st1
+      exact ⟨b', mem', st1, rep1⟩
 
 end
-
-theorem condOK_5 {G : GCtx} (ok : G.OK) {pi : PInfo} (hpi : pi ∈ G.procs) (sp dep : Nat)
-    (hi : Nat → Word) (hlo : G.lo ≤ sp) (hspv : sp + G.S pi + pi.po + pi.p.formals.length ≤ G.spv + 1)
-    (hstack : G.spv ≤ sp + dep * G.smax) (F : Nat) (hcs : ∀ k, k < F → CallSpec G k)
-    (c : X.Expr) (h : cond5 G.pk G.pnames G.xc.impure c = true) : CondOK (KOf G pi sp dep hi) F c := by
-  simp only [cond5, Bool.or_eq_true, Bool.and_eq_true] at h
-  rcases h with hp | ⟨hpk, hpp⟩
-  · exact condOK_pure _ (ok.wfs pi hpi sp dep hi hlo hspv).toWF F c hp
-  · exact condOK_pp ok (ok.pure_ok hpk) hpi sp dep hi hlo hspv hstack F hcs c hpp
 
 theorem exec_assign_eq (f : Nat) (xc : X.Ctx) (n : String) (e : X.Expr) (σ st : X.St) (ht : X.tick xc σ = some st) :
     X.exec (f + 1) xc (.assign n e) σ =
@@ -546,7 +575,7 @@ theorem argsOK_first {G : GCtx} (ok : G.OK) {pi : PInfo} (hpi : pi ∈ G.procs) 
       = [.imm 0x1 1, .imm 0x8 ((G.S pi : Int) - 1 + -(g1.offset : Int))] := rfl
   rw [hl2] at hat ⊢
   -- the inner call
-  have hE := exec_callExpr ok f0 (fun k hk => hcs k (by omega)) hpi sp dep hi hlo hspv hstack g args' hg
+  have hE := exec_callExprF ok f0 (fun k hk => hcs k (by omega)) hpi sp dep hi hlo hspv hstack g args' hg
     (fun f' _ => argsOK_pure ok hpi sp dep hi hlo hspv hstack f' args' hp') st { gs with size := gs.offset } cc g1 i a b mem hgc
     hat.left hr (by omega) hnl hcig1
   cases heval : X.eval f0 G.xc (.call g args') st with
@@ -562,7 +591,7 @@ theorem argsOK_first {G : GCtx} (ok : G.OK) {pi : PInfo} (hpi : pi ∈ G.procs) 
     | arr r => exact (eval_call_int G.xc f0 g args' st s1 r heval).elim
     | int w =>
     simp only at hE
-    obtain ⟨b1, mem1, st1, rep1⟩ := hE
+    obtain ⟨b1, mem1, st1, rep1, frmE⟩ := hE
     -- park the value
     have hoff : g1.offset < G.S pi := by omega
     have hld := hat.right.left.get 0 _ rfl
@@ -596,24 +625,24 @@ theorem argsOK_first {G : GCtx} (ok : G.OK) {pi : PInfo} (hpi : pi ∈ G.procs) 
     | exit c s => exact absurd hpe (evalArgs_pure_no_exit G.xc post f0 s1 c s (fun e he => constL_pure G.rho e (hpost e he)))
     | ok vs s =>
       simp only [Res.bind]
-      obtain ⟨hss, hlv, hokv, hspec⟩ := constLs_specs (KOf G pi sp dep hi) wf.toWF post f0 s1 s vs hpost rep2.valsOk hpe
+      obtain ⟨hss, hlv, hspec⟩ := constLs_specs (KOf G pi sp dep hi) wf.toWF post f0 s1 s vs hpost rep2.valsOk hpe
       have hload : LoadSpec (KOf G pi sp dep hi) s1 (optArgsOf G.rho (.call g args' :: post))
-          ((Val.int w :: vs).map (wordOf G.abase)) := by
+          ((Val.int w :: vs).map (KOf G pi sp dep hi).VRep) := by
         rw [hargs]
         simp only [List.map_cons, LoadSpec]
         exact ⟨fun h => by rw [hcc] at h; simp at h, hspec s1⟩
       have hsv : SavedOk (KOf G pi sp dep hi) (mem1.write ((KOf G pi sp dep hi).slot g1.offset) w)
-          (optArgsOf G.rho (.call g args' :: post)) ((Val.int w :: vs).map (wordOf G.abase)) gs.offset := by
+          (optArgsOf G.rho (.call g args' :: post)) ((Val.int w :: vs).map (KOf G pi sp dep hi).VRep) gs.offset := by
         rw [hargs]
         simp only [List.map_cons]
         unfold SavedOk
         rw [if_pos hcc]
         refine ⟨?_, savedOk_noCall _ _ _ _ _ hpostnc⟩
         rw [← e1o]
-        exact Mem.read_write_same _ _ _ hsl1
-      have hlenW : (optArgsOf G.rho (.call g args' :: post)).length = ((Val.int w :: vs).map (wordOf G.abase)).length := by
+        exact (Mem.read_write_same _ _ _ hsl1 : _ = w)
+      have hlenW : (optArgsOf G.rho (.call g args' :: post)).length = ((Val.int w :: vs).map (KOf G pi sp dep hi).VRep).length := by
         simp [optArgsOf, hlv]
-      obtain ⟨a3, b3, mem3, st3, rep3, hvals, _, _⟩ := exec_loadItems (KOf G pi sp dep hi) wf.toWF s1 _ _ hlenW hload
+      obtain ⟨a3, b3, mem3, st3, rep3, hvals, _, frm3⟩ := exec_loadItems (KOf G pi sp dep hi) wf.toWF s1 _ _ hlenW hload
         pj.po gs.offset _ c2 gs2 (i + (lowerCode G.cg cc).length + 1 + 1) w (mem1.read 1)
         (mem1.write ((KOf G pi sp dep hi).slot g1.offset) w) h2
         (by have := hat.right.right.left; show At G.env.ds _ (lowerCode G.cg c2); simpa [Nat.add_assoc] using this) rep2 hsv
@@ -624,16 +653,12 @@ theorem argsOK_first {G : GCtx} (ok : G.OK) {pi : PInfo} (hpi : pi ∈ G.procs) 
       have rep3s : Rep (KOf G pi sp dep hi) s mem3 := rep3.same hss
       have hio : s.io = s1.io := hss.2.2.2.1
       have hct := exec_calltail ok (f0 + 1) (hcs' (f0 + 1) (Nat.le_refl _)) hpi hpj sp dep hi hlo hspv hstack s (Val.int w :: vs)
-        (fun x hx => by
-          rcases List.mem_cons.mp hx with rfl | hx
-          · rfl
-          · exact hokv x hx)
         gs2.labelCount gs.offset
         (i + (lowerCode G.cg cc).length + 1 + 1 + (lowerCode G.cg c2).length) a3 b3 mem3
         (by have := hat.right.right.right; simpa [Nat.add_assoc] using this) rep3s
         (fun k hk => by
           have := hvals k (by simpa using hk)
-          rw [getElem_map_wordOf] at this
+          simp only [List.getElem_map] at this
           exact this)
         (by simp only [List.length_cons]; omega) (by omega) (by omega)
       have hpre : Steps G.env (cfg i a b mem) st.io
@@ -648,9 +673,11 @@ theorem argsOK_first {G : GCtx} (ok : G.OK) {pi : PInfo} (hpi : pi ∈ G.procs) 
         exact ⟨c, hpre.trans hs, he⟩
       | ok res s' =>
         rw [hx] at hct
-        obtain ⟨a', b', mem', hs, rep', hres, _⟩ := hct
+        obtain ⟨a', b', mem', hs, rep', hres, frm4⟩ := hct
         rw [hio] at hs
-        refine ⟨a', b', mem', ?_, rep', hres⟩
+        refine ⟨a', b', mem', ?_, rep', hres,
+          ((frmE.trans (frm2.toC.mono (by omega) (by show g1.offset + 1 ≤ G.S pi; omega))).trans
+            (frm3.mono (by simp only; omega) (Nat.le_refl _))).trans frm4⟩
         have : i + ((lowerCode G.cg cc).length + ([Dir.imm 1 1, Dir.imm 8 ((G.S pi : Int) - 1 + -(g1.offset : Int))].length +
             ((lowerCode G.cg c2).length + (lowerCode G.cg (callTail pj.callKind gs2.labelCount)).length)))
             = i + (lowerCode G.cg cc).length + 1 + 1 + (lowerCode G.cg c2).length + (lowerCode G.cg (callTail pj.callKind gs2.labelCount)).length := by
@@ -665,188 +692,10 @@ theorem callE_inv (ps : List String) (e : X.Expr) (h : callE ps e = true) :
   rename_i g args
   exact ⟨g, args, rfl, h.1, h.2⟩
 
-/-- The actuals of a call of the class, at every fuel below `F`. -/
-theorem argsOK_5 {G : GCtx} (ok : G.OK) {pi : PInfo} (hpi : pi ∈ G.procs) (sp dep : Nat)
-    (hi : Nat → Word) (hlo : G.lo ≤ sp) (hspv : sp + G.S pi + pi.po + pi.p.formals.length ≤ G.spv + 1)
-    (hstack : G.spv ≤ sp + dep * G.smax) (F : Nat) (hcs : ∀ k, k < F → CallSpec G k)
-    (args : List X.Expr) (h : argsOk5 G.pk G.pnames G.xc.impure G.rho args = true) :
-    ∀ f, f < F → ArgsOK G pi sp dep hi f args := by
-  intro f hf
-  simp only [argsOk5, Bool.or_eq_true, Bool.and_eq_true, List.all_eq_true] at h
-  rcases h with (hp | ⟨hpk, hpp⟩) | hfc
-  rotate_left 2
-  · cases args with
-    | nil => simp [firstCallArgs] at hfc
-    | cons a rest =>
-      simp only [firstCallArgs, Bool.and_eq_true, List.all_eq_true] at hfc
-      obtain ⟨g, args', rfl, hg, hargs'⟩ := callE_inv _ _ hfc.1
-      exact argsOK_first ok hpi sp dep hi hlo hspv hstack F hcs g args' rest hg hargs' hfc.2 f hf
-  · exact argsOK_pure ok hpi sp dep hi hlo hspv hstack f args hp
-  · exact argsOK_pp ok hpi sp dep hi hlo hspv hstack (ok.pure_ok hpk) f
-      (fun k hk => callLeaf_of_spec ok (ok.pure_ok hpk) hpi sp dep hi hlo hspv hstack k (fun j hj => hcs j (by omega)))
-      args hpp
-
-/-! ### The induction -/
-
-def StmtLSpec (G : GCtx) (fuel : Nat) : Prop :=
-  ∀ pi ∈ G.procs, ∀ sp dep hi, G.lo ≤ sp → sp + G.S pi + pi.po + pi.p.formals.length ≤ G.spv + 1 → G.spv ≤ sp + dep * G.smax →
-    ∀ ss σ, okS5L G.pk G.pnames G.xc.impure G.rho ss = true →
-      ExecSL (KOf G pi sp dep hi) (G.iEpi pi) (optStmts (annotSL G.rho ss)) σ (X.execSeq fuel G.xc ss σ)
-
 theorem callE5_inv (pk : Bool) (ps imp : List String) (ρ : String → Option Word) (e : X.Expr) (h : callE5 pk ps imp ρ e = true) :
     ∃ g args, e = .call g args ∧ g ∈ ps ∧ argsOk5 pk ps imp ρ args = true := by
   cases e <;> simp [callE5] at h
   rename_i g args
   exact ⟨g, args, rfl, h.1, h.2⟩
-
-theorem callSpec_zero (G : GCtx) : CallSpec G 0 := by
-  intro pi _ ws st lnk b mem spc k kind n _ _ _ _ _ _ _ _ _
-  rw [callUser_zero]; trivial
-
-/-- **Stage (4).**  For every fuel: the statement triples of every procedure in every activation
-    within the stack budget, and the specification of every callee. -/
-theorem all_correct {G : GCtx} (ok : G.OK) : ∀ fuel, StmtSpec G fuel ∧ StmtLSpec G fuel ∧ CallSpec G fuel := by
-  intro fuel
-  induction fuel using Nat.strongRecOn with
-  | _ fuel ih =>
-    cases fuel with
-    | zero =>
-      refine ⟨?_, ?_, callSpec_zero G⟩
-      · intro pi _ sp dep hi _ _ _ s σ _ gs code gs' i a b mem _ _ _ _ _ _
-        unfold X.exec; trivial
-      · intro pi _ sp dep hi _ _ _ ss σ _ gs code gs' i a b mem _ _ _ _ _ _
-        unfold X.execSeq; trivial
-    | succ F =>
-      obtain ⟨ihS, ihL, ihC⟩ := ih F (Nat.lt_succ_self _)
-      have hcsF : ∀ k, k < F → CallSpec G k := fun k hk => (ih k (Nat.lt_succ_of_lt hk)).2.2
-      have hcsF1 : ∀ k, k < F + 1 → CallSpec G k := fun k hk => (ih k hk).2.2
-      refine ⟨?_, ?_, callee_correct ok F ihS⟩
-      · intro pi hpi sp dep hi hlo hspv hstack s σ hok
-        have wf := ok.wfs pi hpi sp dep hi hlo hspv
-        have ihS' := ihS pi hpi sp dep hi hlo hspv hstack
-        cases s with
-        | skip => exact execS_skip _ _ wf _ σ
-        | stop => exact execS_stop _ _ wf _ σ
-        | ret e =>
-          simp only [okS5, rhs5, Bool.or_eq_true, Bool.and_eq_true] at hok
-          have : optStmt (annotS G.rho (.ret e)) = .ret (optExpr (annotate G.rho e)) := by
-            simp [annotS, optStmt]
-          rw [this]
-          rcases hok with (hpure | hcall) | ⟨hpk, hpp⟩
-          rotate_left 2
-          · apply execS_retE (KOf G pi sp dep hi) _ wf F e _ σ
-            intro st _
-            exact execE_pp ok (ok.pure_ok hpk) hpi sp dep hi hlo hspv hstack F hcsF e hpp st
-          · exact execS_ret (KOf G pi sp dep hi) _ wf _ e σ hpure
-          · obtain ⟨g, args, rfl, hg, hargs⟩ := callE5_inv _ _ _ _ _ hcall
-            apply execS_retE (KOf G pi sp dep hi) _ wf F (.call g args) _ σ
-            intro st _ gs code gs' i a b mem hgen hat hr hsz hnl hci
-            exact exec_callExpr ok F hcsF hpi sp dep hi hlo hspv hstack g args hg
-              (argsOK_5 ok hpi sp dep hi hlo hspv hstack F hcsF args hargs) st gs code gs' i a b mem
-              hgen hat hr hsz hnl hci
-        | assign n e =>
-          simp only [okS5, rhs5, Bool.or_eq_true, Bool.and_eq_true] at hok
-          have : optStmt (annotS G.rho (.assign n e)) = .assign n (optExpr (annotate G.rho e)) := by
-            simp [annotS, optStmt]
-          rw [this]
-          rcases hok with (hpure | hcall) | ⟨hpk, hpp⟩
-          rotate_left 2
-          · apply execS_assignE (KOf G pi sp dep hi) _ wf F n e _ σ
-            intro st _
-            exact execE_pp ok (ok.pure_ok hpk) hpi sp dep hi hlo hspv hstack F hcsF e hpp st
-          · exact execS_assign (KOf G pi sp dep hi) _ wf _ n e σ hpure
-          · obtain ⟨g, args, rfl, hg, hargs⟩ := callE5_inv _ _ _ _ _ hcall
-            apply execS_assignE (KOf G pi sp dep hi) _ wf F n (.call g args) _ σ
-            intro st _ gs code gs' i a b mem hgen hat hr hsz hnl hci
-            exact exec_callExpr ok F hcsF hpi sp dep hi hlo hspv hstack g args hg
-              (argsOK_5 ok hpi sp dep hi hlo hspv hstack F hcsF args hargs) st gs code gs' i a b mem
-              hgen hat hr hsz hnl hci
-        | ite c t e =>
-          simp only [okS5, Bool.and_eq_true] at hok
-          exact execS_ite (KOf G pi sp dep hi) _ wf F c t e σ (condOK_5 ok hpi sp dep hi hlo hspv hstack F hcsF c hok.1.1) (fun s => ihS' t s hok.1.2) (fun s => ihS' e s hok.2)
-        | «while» c b =>
-          simp only [okS5, Bool.and_eq_true] at hok
-          exact execS_while (KOf G pi sp dep hi) _ wf F c b σ (condOK_5 ok hpi sp dep hi hlo hspv hstack F hcsF c hok.1) (fun s => ihS' b s hok.2)
-            (fun s => ihS' (.while c b) s (by simp [okS5, hok.1, hok.2]))
-        | seq ss =>
-          simp only [okS5] at hok
-          intro gs code gs' i a b mem hg hat hr hsz hnl hci
-          rw [optStmt_seq, genStmt_seq] at hg
-          cases ht : X.tick G.xc σ with
-          | none => unfold X.exec; rw [ht]; trivial
-          | some st =>
-            rw [exec_seq F G.xc ss σ st ht]
-            have hs := tick_same _ _ _ ht
-            have := ihL pi hpi sp dep hi hlo hspv hstack ss st hok gs code gs' i a b mem hg hat (hr.same hs) hsz hnl hci
-            rw [hs.2.2.2.1] at this
-            exact this
-        | syscall id args =>
-          simp only [okS5, Bool.and_eq_true, decide_eq_true_eq, List.all_eq_true] at hok
-          exact execS_syscall (KOf G pi sp dep hi) _ wf _ id args σ hok.1 hok.2
-        | assignSub n i e =>
-          simp only [okS5, Bool.and_eq_true] at hok
-          have : optStmt (annotS G.rho (.assignSub n i e))
-              = .assignSub n (optExpr (annotate G.rho i)) (optExpr (annotate G.rho e)) := by
-            simp [annotS, optStmt]
-          rw [this]
-          exact execS_assignSub (KOf G pi sp dep hi) _ wf _ n i e σ hok.1 hok.2
-        | call g args =>
-          simp only [okS5, Bool.and_eq_true, List.all_eq_true, Bool.or_eq_true, List.contains_iff_mem] at hok
-          rcases hok with ⟨hps, hargs⟩ | ⟨hvs, hargs⟩
-          · exact execS_callStmt ok (F + 1) hcsF1 hpi sp dep hi hlo hspv hstack g args hps
-              (argsOK_5 ok hpi sp dep hi hlo hspv hstack (F + 1) hcsF1 args hargs) σ
-          · unfold valSys at hvs
-            cases hr : G.rho g with
-            | none => rw [hr] at hvs; simp at hvs
-            | some w =>
-              rw [hr] at hvs
-              simp only [decide_eq_true_eq] at hvs
-              exact execS_valcall (KOf G pi sp dep hi) _ wf _ g args σ w hr hvs hargs
-      · intro pi hpi sp dep hi hlo hspv hstack ss σ hok
-        have ihS' := ihS pi hpi sp dep hi hlo hspv hstack
-        have ihL' := ihL pi hpi sp dep hi hlo hspv hstack
-        cases ss with
-        | nil =>
-          intro gs code gs' i a b mem hg hat hr hsz hnl hci
-          simp only [annotSL, optStmts] at hg
-          rw [genStmts_nil] at hg
-          simp only [Except.ok.injEq, Prod.mk.injEq] at hg
-          rw [← hg.1, execSeq_nil]
-          exact ⟨a, b, mem, Steps.refl _ _, hr⟩
-        | cons s rest =>
-          simp only [okS5L, Bool.and_eq_true] at hok
-          intro gs code gs' i a b mem hg hat hr hsz hnl hci
-          rw [optStmts_cons] at hg
-          obtain ⟨c, gs1, cs, h1, h2, hcode⟩ := genStmts_cons_inv _ _ _ _ _ _ hg
-          subst hcode
-          have e2 : Eff gs1 gs' := by
-            have := genStmt_eff (KOf G pi sp dep hi).ctx (.seq (optStmts (annotSL G.rho rest))) gs1 cs gs'
-              (by rw [genStmt_seq]; exact h2)
-            exact this
-          have e1 := genStmt_eff _ _ _ _ _ h1
-          simp only [low_append] at hat ⊢
-          rw [execSeq_cons]
-          have hS := ihS' s σ hok.1 gs c gs1 i a b mem h1 hat.left hr (by have := e2.2.1; omega) hnl (hci.of_eff e2)
-          cases hx : X.exec F G.xc s σ with
-          | undef w => trivial
-          | exit cd s' =>
-            rw [hx] at hS
-            exact hS
-          | ok fl s' =>
-            cases fl with
-            | ret w =>
-              rw [hx] at hS
-              simp only
-              split
-              · exact hS
-              · trivial
-            | normal =>
-              rw [hx] at hS
-              simp only
-              obtain ⟨a', b', mem', st1, rep1⟩ := hS
-              have hL := ihL' rest s' hok.2 gs1 cs gs' (i + ((KOf G pi sp dep hi).low c).length) a' b' mem' h2 hat.right rep1 hsz
-                (by have := e1.1; omega) hci
-              simp only [List.length_append, ← Nat.add_assoc]
-              exact hL.pre st1
 
 end Hex.C01s
